@@ -180,18 +180,7 @@ def run_case(concepts, case, spec):
     which = members if len(members) <= 60 else rng.sample(members, 60)
     if members[0] not in which:
         which = [members[0]] + list(which)
-    for c in which:
-        g = call(c.attributes)
-        if g is not RAISED:
-            call(list, g)
-        call(c.minimal)
-    for _ in range(2):
-        c = rng.choice(members)
-        g = call(c.attributes)
-        if g is not RAISED:
-            for _ in range(rng.randint(0, 2)):
-                next(g, None)
-            del g
+    # first thing on a fresh lattice (a lazily filled cache would still be empty here):
     # two enumerations of the same concept alive at once, and minimal() in between
     for _ in range(4):
         c = rng.choice(which)
@@ -207,3 +196,15 @@ def run_case(concepts, case, spec):
         call(list, it1)
         call(c.minimal)
         COL.count('interleaved_enumerations')
+    for c in which:
+        g = call(c.attributes)
+        if g is not RAISED:
+            call(list, g)
+        call(c.minimal)
+    for _ in range(2):
+        c = rng.choice(members)
+        g = call(c.attributes)
+        if g is not RAISED:
+            for _ in range(rng.randint(0, 2)):
+                next(g, None)
+            del g
